@@ -141,6 +141,7 @@ type RaftTune struct {
 	SnapshotInterval  time.Duration
 	MaxAppendEntries  int
 	BackupsRotate     int
+	NoCommitRetries   bool // commit_retries = 0: one try per operation
 }
 
 // RaftConfig returns a raft config for a peer folder.
@@ -168,6 +169,9 @@ func RaftConfig(dir string, peers []peer.ID, t RaftTune) *raft.Config {
 	}
 	if t.TrailingLogs > 0 {
 		cfg.RaftConfig.TrailingLogs = t.TrailingLogs
+	}
+	if t.NoCommitRetries {
+		cfg.CommitRetries = 0
 	}
 	if t.BackupsRotate > 0 {
 		cfg.BackupsRotate = t.BackupsRotate
